@@ -208,6 +208,22 @@ def sample : Rep :=
 example : sample.printable = true ∧ dupKeyDict.printable = false ∧ holeyString.printable = false
     ∧ surrogateString.printable = false ∧ starTuple.printable = false ∧ ampTuple.printable = false := by decide
 
+/-- Relation.Format's heading is a permutation of the stored attribute names: nothing is lost or invented -/
+theorem relation_heading_is_permutation (phys : List (List Nat)) : (sortNames phys).Perm phys := sortNames_perm phys
+
+/-- Relation.Format's row projection: under every name of the printed heading stands the value the row stores for that
+attribute, whatever the physical column order (sorted, as in a literal, or permuted, as in a join result) -/
+theorem relation_row_projection {α : Type} (phys : List (List Nat)) (row : List α) (n : List Nat) (h : n ∈ phys) :
+    lookupName n ((sortNames phys).zip (projectRow phys row (sortNames phys))) = some (lookupName n (phys.zip row)) := by
+  have hn : n ∈ sortNames phys := (sortNames_perm phys).mem_iff.2 h
+  exact lookupName_zip_map (fun m => lookupName m (phys.zip row)) (sortNames phys) n hn
+
+/-- the join result `{|a, c| (1, 2)} <&> {|a, b, d| (1, 3, 4)}` is stored as a, c, b, d and must print (1, 3, 2, 4);
+taking the stored row as it stands (a "contiguous" slice) would print (1, 2, 3, 4) -/
+theorem relation_view_of_a_join_result :
+    relView [[97], [99], [98], [100]] [[1, 2, 3, 4]]
+      = ([[97], [98], [99], [100]], [[some 1, some 3, some 2, some 4]]) := by decide
+
 /-- what `arrai eval` writes at top level (pkg/arrai/out.go): raw for strings and byte arrays, nothing for the
 empty set, the printed form for everything else -/
 theorem output_modes : outputMode holeyString = .raw ∧ outputMode (.bytes 0 [1]) = .raw ∧ outputMode (.set []) = .empty
